@@ -31,3 +31,6 @@ pub fn vx_noop<T>(x: &mut T)
     ensures *final(x) == *old(x),
 {
 }
+/// ASSUMED (A3): `Option::replace` stores the new value and returns the old one
+pub assume_specification<T> [Option::<T>::replace] (o: &mut Option<T>, value: T) -> (r: Option<T>)
+    ensures r == *old(o), *final(o) == Some(value);
